@@ -75,8 +75,8 @@ def stream_history(seed, tier, tracked_share=0.4):
         for s in range(2 if tier == "quick" else 4):
             # tracked types: equal element sizes keep element-wise relocation free of overlap (known finding otherwise)
             eq = c.tracked() and not (s == 1 and c.name.startswith("trk-"))
-            out.append((c, gen.gen_history(rng, c, 30 if tier == "quick" else 120, equal_sizes=eq,
-                                           weights={"emplace": 10, "pop": 2, "erase": 4, "eraser": 2, "clear": 1, "reserve": 2, "dump": 1})))
+            out.append((c, gen.gen_history(rng, c, 30 if tier == "quick" else 120, equal_sizes=eq, defaults=(s == 0),
+                                           weights={"emplace": 10, "pop": 2, "erase": 4, "eraser": 2, "clear": 2, "reserve": 2, "dump": 1})))
         out.append((c, gen.gen_shrinking_reserve(rng, c)))
     return out
 
@@ -210,7 +210,8 @@ STREAMS = {
     "C01": stream_history, "C02": stream_layout, "C03": stream_layout, "C04": stream_layout,
     "C05": lambda seed, tier: stream_layout(seed, tier) + stream_alloc(seed, tier),
     "C06": lambda seed, tier: stream_history(seed, tier) + stream_alloc(seed, tier) + stream_element(seed, tier),
-    "C10": stream_history, "C16": stream_history, "C18": stream_history,
+    "C10": stream_history, "C16": stream_history,
+    "C18": lambda seed, tier: stream_history(seed, tier) + stream_alloc(seed, tier),
     "C07": lambda seed, tier: stream_alloc(seed, tier) + stream_element(seed, tier),
     "C08": lambda seed, tier: stream_alloc(seed, tier) + stream_element(seed, tier),
     "C09": stream_alloc,
